@@ -5,6 +5,11 @@ PROPS = {
                 # corpus cases of kind `run` that list C12 (D6: order of mixed parameters) are
                 # replayed through the run machinery with the parameter projection
                 proj="P_C15", mon="mon_true",
+                # the check builds exactly these (props.build_targets): the models the slices evaluate
+                # inside coqc (+ the run machinery for the corpus case of kind `run`), then the theorem
+                # file with everything it depends on and the source-table obligations
+                runtime=["Front/Lexemes.vo", "Front/FrontEnd.vo", "Front/Render.vo", "NetRun.vo", "Monitors.vo"],
+                targets=["Properties/C12.vo", "Gen/ObligationsFront.vo"],
                 quick=dict(programs=400, insertion_texts=80, positions_per_text=60,
                            coq_denter=160, coq_frontend=160, coq_render=64),
                 thorough=dict(programs=8000, insertion_texts=1600, positions_per_text=60,
